@@ -100,7 +100,8 @@ def run_case(case):
 
     class Probe(Actor):
         def __init__(self, idx, spec):
-            super().__init__(name=f"probe{idx}")
+            nm = spec.get("name", f"probe{idx}")
+            super().__init__(name=None if nm == "default" else nm)
             self.idx = idx
             self.spec = spec
             if spec["limit"] != "default":
@@ -231,6 +232,14 @@ def run_case(case):
         counters[kind] += 1
         return counters[kind]
 
+    class ProbeB(Probe):      # other classes: str(actor) = "<class>[<name>]" differs although the name is equal
+        pass
+
+    class ProbeC(Probe):
+        pass
+
+    classes = {"A": Probe, "B": ProbeB, "C": ProbeC}
+
     def done_flags(tids):
         return [task_of[t].done() for t in tids]
 
@@ -271,7 +280,7 @@ def run_case(case):
                 wid_of_task[f] = w
                 c[2]["wid"][f] = w
                 ws.append(w)
-            rec("runcall", c[1], sorted(ws))
+            rec("runcall", c[1], sorted(ws), sorted(c[2]["sel"]))
         res = await orig_wait(fs, timeout=timeout, return_when=return_when)
         if c is not None and c[0] == "call":
             rec("wake", c[1])
@@ -286,7 +295,7 @@ def run_case(case):
             pass
 
     async def main():
-        actors = [Probe(i, spec) for i, spec in enumerate(case["actors"])]
+        actors = [classes[spec.get("cls", "A")](i, spec) for i, spec in enumerate(case["actors"])]
         t0 = loop.time()
         for op in case["ops"]:
             due = t0 + op[0] / 1000.0
@@ -316,7 +325,7 @@ def run_case(case):
                 rec("add", op[2], tid)
             elif kind == "run":
                 rid = _new("rid")
-                info = {"called": False, "wid": {}}
+                info = {"called": False, "wid": {}, "sel": list(op[2])}
                 sel = [actors[i] for i in op[2]]
                 sets0 = sorted(tid_of[t] for a in sel for t in a._tasks)
 
@@ -390,7 +399,7 @@ def c_errs(res):
     return "(WRaise " + clist(res, lambda x: f"({cnat(x[0])}, {c_outcome(x[1])})") + ")"
 
 
-def c_event(e):
+def c_event(e, actor_of_call=None):
     t, k = e[0], e[1]
     nl = lambda xs: clist(xs, cnat)
     if k == "start":
@@ -420,7 +429,10 @@ def c_event(e):
     elif k == "ret":
         ev = f"GRet {cnat(e[2])} {c_errs(e[3])}"
     elif k == "runcall":
-        ev = f"GRunCall {cnat(e[2])} {nl(e[3])}"
+        # one wait() call per actor given to run(): the actor of a call is the one whose wait() it executed
+        # (999 = the call never began); both lists sorted by actor
+        aws = sorted([(actor_of_call or {}).get(w, 999), w] for w in e[3])
+        ev = f"GRunCall {cnat(e[2])} {nl(e[4])} " + clist(aws, lambda x: f"({cnat(x[0])}, {cnat(x[1])})")
     elif k == "runwake":
         ev = f"GRunWake {cnat(e[2])} {nl(e[3])}"
     elif k == "runret":
@@ -431,7 +443,8 @@ def c_event(e):
 
 
 def c_trace(log):
-    return "[" + "; ".join(x for x in (c_event(e) for e in log) if x is not None) + "]"
+    actor_of_call = {e[3]: e[2] for e in log if e[1] in ("waitcall", "stopcall")}
+    return "[" + "; ".join(x for x in (c_event(e, actor_of_call) for e in log) if x is not None) + "]"
 
 
 def c_limit(l, default):
@@ -542,6 +555,44 @@ def gen_case(rng, delay_ms=2000):
     return {"actors": actors, "ops": ops, "settle_ms": rng.choice([0, 3000, 3000, 9000])}
 
 
+def gen_run_case(rng):
+    """run() over 2-3 actors: default / distinct / DUPLICATE explicit names, same or different classes,
+    actors finishing in every order (durations drawn independently), some already started, some
+    stopped / cancelled / given extra tasks while run() waits."""
+    nact = rng.choice([2, 2, 3])
+    naming = rng.choice(["default", "distinct", "dup", "dup", "mixed"])
+    classing = rng.choice(["same", "same", "different"])
+    actors = []
+    for i in range(nact):
+        name = {"default": "default", "distinct": f"n{i}", "dup": "same-name",
+                "mixed": rng.choice(["default", "same-name", "same-name", f"n{i}"])}[naming]
+        nruns = rng.choice([1, 1, 2])
+        script = [{"awaits": [rng.choice([0, 50, 100, 700, 1500, 3000, 4000])],
+                   "end": rng.choice(["ret", "ret", "exc", "base"]) if k == nruns - 1 else "exc",
+                   "on_cancel": [rng.choice(["prop", "ret", "exc"])] if rng.random() < 0.3 else []}
+                  for k in range(nruns)]
+        actors.append({"limit": rng.choice([0, 1, 3, None]), "script": script, "name": name,
+                       "cls": "A" if classing == "same" else "ABC"[i]})
+    ops = []
+    for i in range(nact):
+        if rng.random() < 0.25:
+            ops.append([0, "start", i])
+    sel = list(range(nact)) if rng.random() < 0.75 else sorted(rng.sample(range(nact), 2))
+    ops.append([rng.choice([0, 0, 0, 10]), "run", sel])
+    for _ in range(rng.choice([0, 0, 0, 1, 2])):
+        t = rng.choice([10, 60, 400, 800, 1600, 2500, 3500, 5000])
+        k = rng.choice(["stop", "cancel", "add", "wait", "start", "run"])
+        a = rng.randrange(nact)
+        if k == "add":
+            ops.append([t, "add", a, gen_extra(rng)])
+        elif k == "run":
+            ops.append([t, "run", sorted(rng.sample(range(nact), rng.randint(1, nact)))])
+        else:
+            ops.append([t, k, a])
+    ops.sort(key=lambda o: o[0])
+    return {"actors": actors, "ops": ops, "settle_ms": rng.choice([3000, 9000, 9000])}
+
+
 def exhaustive_cases(maxlen):
     """All words up to [maxlen] over a small alphabet of injected calls at the same instant structure:
     one actor with a failing-then-returning script; letters advance time or call something."""
@@ -594,6 +645,17 @@ def boundary_cases():
         # swallowed cancellation, task added while stop() is waiting: stop keeps waiting for it
         {"actors": [A(None, [S([1000], "ret", ["ret"])])],
          "ops": [[0, "start", 0], [10, "stop", 0], [10, "yield", 1], [10, "add", 0, {"awaits": [700], "end": "exc", "on_cancel": []}]], "settle_ms": 0},
+        # run() over actors with the SAME explicit name: the earlier one outlives the later one, and the reverse
+        {"actors": [{**A(None, [S([3000], "ret")]), "name": "dup"}, {**A(None, [S([100], "ret")]), "name": "dup"}],
+         "ops": [[0, "run", [0, 1]]], "settle_ms": 6000},
+        {"actors": [{**A(None, [S([100], "ret")]), "name": "dup"}, {**A(None, [S([3000], "exc")]), "name": "dup"}],
+         "ops": [[0, "run", [0, 1]]], "settle_ms": 6000},
+        {"actors": [{**A(0, [S([3000], "exc")]), "name": "dup", "cls": "A"}, {**A(None, [S([100], "ret")]), "name": "dup", "cls": "B"},
+                    {**A(None, [S([1500], "base")]), "name": "default", "cls": "A"}],
+         "ops": [[0, "run", [0, 1, 2]]], "settle_ms": 6000},
+        {"actors": [{**A(None, [S([2000], "ret")]), "name": "default"}, {**A(None, [S([100], "ret")]), "name": "default"},
+                    {**A(None, [S([900], "ret")]), "name": "dup"}, ],
+         "ops": [[0, "start", 0], [5, "run", [0, 1, 2]], [50, "run", [0, 2]]], "settle_ms": 6000},
         # default restart limit (unbounded)
         {"actors": [A("default", [S([], "exc")] * 6 + [S([], "ret")])], "ops": [[0, "start", 0]], "settle_ms": 15000},
     ]
@@ -622,8 +684,10 @@ def shrink_case(case):
 class ActorStream(Stream):
     name = "lifecycle"
     coq_header = HEADER
-    n_quick = 2500
-    n_thorough = 12000
+    n_quick = 1900
+    n_thorough = 10000
+    n_run_quick = 700
+    n_run_thorough = 4000
     exhaustive_quick = 3
     exhaustive_thorough = 5
 
@@ -632,6 +696,8 @@ class ActorStream(Stream):
         yield from exhaustive_cases(self.exhaustive_quick if tier == "quick" else self.exhaustive_thorough)
         for _ in range(self.n_quick if tier == "quick" else self.n_thorough):
             yield gen_case(rng)
+        for _ in range(self.n_run_quick if tier == "quick" else self.n_run_thorough):
+            yield gen_run_case(rng)
 
     def run_impl(self, case):
         return run_case(case)
@@ -654,6 +720,19 @@ class ActorStream(Stream):
     def labels(self, case, obs):
         log = obs["log"]
         out = [f"actors={len(case['actors'])}"]
+        names = [a.get("name", f"probe{i}") for i, a in enumerate(case["actors"])]
+        runs = [e for e in log if e[1] == "runbegin"]
+        for rb in runs:
+            sel_names = [names[i] for i in rb[3]]
+            expl = [n for n in sel_names if n != "default"]
+            if len(expl) != len(set(expl)):
+                same_cls = len({case["actors"][i].get("cls", "A") for i in rb[3]}) == 1
+                out.append("run_duplicate_names_" + ("same_class" if same_cls else "different_classes"))
+            elif "default" in sel_names:
+                out.append("run_default_names")
+            else:
+                out.append("run_distinct_names")
+            out.append(f"run_over={len(rb[3])}")
         for a in case["actors"]:
             out.append(f"limit={a['limit']}")
         kinds = [e[1] for e in log]
